@@ -202,7 +202,8 @@ def consumed_contract(ctx, R2, dv):
     if isinstance(p, ast.Assign) and isinstance(p.targets[0], ast.Name):
         start_name = p.targets[0].id
         marker = lit
-    if start_name is None or marker is None:
+    marker_expr = unparse(c.args[0])
+    if start_name is None:
         raise AnalysisError("decode: `start = buffer.find(marker)` not found")
     n_missing = 0
     from sa.decoder import delimited_flags
@@ -240,7 +241,7 @@ def consumed_contract(ctx, R2, dv):
                          sample={"rule": R2, "path": kind + "/delimited", "class": cls, "line": r.line})
             continue
         if kind == "no-marker":
-            ok = cls == "ALL-BUT-TAIL" and kept_tail_ok(dv, r, marker)
+            ok = cls == "ALL-BUT-TAIL" and kept_tail_ok(dv, r, marker, marker_expr)
             what = ("with no complete marker in the buffer the decoder must keep the longest buffer suffix that is a proper prefix of the marker; "
                     f"it reports `{short(r.ast.value.elts[1])}`: a read ending inside the marker loses the head of the next frame")
         else:
@@ -263,8 +264,9 @@ def directly_under(g, rid, atom, ignore=()):
     return best is not None and (atom, True) in facts(best[0], best[1] == "true")
 
 
-def kept_tail_ok(dv, r, marker):
-    """`len(buf) - keep` with keep = longest n in 1..len(marker)-1 such that buf ends with marker[:n]."""
+def kept_tail_ok(dv, r, marker, marker_expr):
+    """`len(buf) - keep` with keep = longest n in 1..len(marker)-1 such that buf ends with marker[:n].
+    marker is the folded literal, or None when the marker is computed at run time (then the bound must be len(<marker expr>) - 1)."""
     e = r.ast.value.elts[1]
     if not (isinstance(e, ast.BinOp) and isinstance(e.right, ast.Name)):
         return False
@@ -281,14 +283,22 @@ def kept_tail_ok(dv, r, marker):
     hi, lo, step = it.args
     if unparse(step) != "-1" or unparse(lo) != "0":
         return False
-    m = re.fullmatch(rf"min\(len\({dv.buf}\), (\d+)\)", unparse(hi)) or re.fullmatch(rf"min\((\d+), len\({dv.buf}\)\)", unparse(hi))
-    if not m or int(m.group(1)) < len(marker) - 1:
+    hi_t = unparse(hi)
+    if marker is not None:
+        m = re.fullmatch(rf"min\(len\({dv.buf}\), (\d+)\)", hi_t) or re.fullmatch(rf"min\((\d+), len\({dv.buf}\)\)", hi_t)
+        bound_ok = bool(m) and int(m.group(1)) >= len(marker) - 1
+        lits = [repr(marker)]
+    else:
+        # a run-time marker: the bound has to follow its length, a constant cannot be right for every marker
+        want = f"len({marker_expr}) - 1"
+        bound_ok = hi_t in (f"min(len({dv.buf}), {want})", f"min({want}, len({dv.buf}))")
+        lits = [marker_expr]
+    if not bound_ok:
         return False
     var = unparse(lp.target)
     body_txt = " ".join(unparse(s) for s in lp.body)
-    lit = repr(marker)
-    cond_ok = (f"{dv.buf}.endswith({lit}[:{var}])" in body_txt) or (f"{lit}[:{var}] == {dv.buf}[-{var}:]" in body_txt) \
-        or (f"{dv.buf}[-{var}:] == {lit}[:{var}]" in body_txt)
+    cond_ok = any((f"{dv.buf}.endswith({lit}[:{var}])" in body_txt) or (f"{lit}[:{var}] == {dv.buf}[-{var}:]" in body_txt)
+                  or (f"{dv.buf}[-{var}:] == {lit}[:{var}]" in body_txt) for lit in lits)
     has_break = any(isinstance(x, ast.Break) for s in lp.body for x in ast.walk(s))
     inits = [v for v in derivation(fn, keep, 0).get(keep, []) if isinstance(v, ast.Constant)]
     return cond_ok and has_break and any(v.value == 0 for v in inits)
